@@ -220,15 +220,20 @@ def run_pipeline(scn: dict[str, Any]) -> dict[str, str]:
         # through the module's own entry point, as main does: hmm_detection.run_on_record detects, annotates the
         # genes and wraps the rule results together with the names of the enabled rules (all saved to JSON)
         detection = mod["hmm_detection"]
-        options = types.SimpleNamespace(hmmdetection_strictness="relaxed", hmmdetection_limit_to_rules=[],
-                                        hmmdetection_limit_to_rule_names=[], hmmdetection_limit_to_categories=[])
-        original_ruleset = detection.get_ruleset
-        detection.get_ruleset = lambda *args, **kwargs: ruleset
+        # the real get_ruleset runs too, restricted by name to all five rules (as with --hmmdetection-limit-to-rules):
+        # only the reading of the shipped rule files is replaced by the ruleset of the scenario
+        options = types.SimpleNamespace(hmmdetection_strictness="relaxed", taxon="bacteria",
+                                        hmmdetection_limit_to_rules=[rule.name for rule in rules],
+                                        hmmdetection_limit_to_categories=[])
+        original_from_files = cp.Ruleset.from_files
+        cp.Ruleset.from_files = classmethod(lambda cls, *args, **kwargs: ruleset)
+        detection._RULESETS.clear()  # pylint: disable=protected-access
         try:
             wrapped = detection.run_on_record(rec, None, options)
         finally:
             cp.run_hmmsearch = original
-            detection.get_ruleset = original_ruleset
+            cp.Ruleset.from_files = original_from_files
+            detection._RULESETS.clear()  # pylint: disable=protected-access
         results = wrapped.rule_results
         out["detection-json"] = json.dumps(wrapped.to_json())
         stage = "protoclusters"
